@@ -203,6 +203,23 @@ Theorem C05_limits : forall P s m s' r, step P s m = (s', r) ->
 Proof. exact step_limits. Qed.
 Print Assumptions C05_limits.
 
+(* ... and the limits are about money that really moves: over pairwise different denoms the trader's balance of the
+   final denom grows by exactly the reported output (which is at least the minimum), and the trader's balance of the
+   first denom shrinks by exactly the reported input (which is at most the maximum) *)
+Theorem C05_min_out_is_delivered : forall P route s n dIn amt minOut s' out,
+  NoDup (dIn :: map snd route) ->
+  route_exact_in P s (Trader n) route dIn amt minOut = Ok (s', out) ->
+  bal s' (Trader n) (last_denom route) = bal s (Trader n) (last_denom route) + out /\ minOut <= out.
+Proof. intros. split; [eapply route_in_delivers; eauto|eapply route_in_min_out; eauto]. Qed.
+Print Assumptions C05_min_out_is_delivered.
+
+Theorem C05_max_in_is_charged : forall P route s n maxIn dOutF amtF s' t,
+  NoDup (map snd route ++ [dOutF]) ->
+  route_exact_out P s (Trader n) route maxIn dOutF amtF = Ok (s', t) ->
+  bal s' (Trader n) (first_denom route) = bal s (Trader n) (first_denom route) - t /\ t <= maxIn.
+Proof. intros. split; [eapply route_out_charges; eauto|eapply route_out_max_in; eauto]. Qed.
+Print Assumptions C05_max_in_is_charged.
+
 (* ------------------------------------------------------------------ the laws hold for a concrete executable pool *)
 Theorem C05_cp_laws : PoolLaws CP.
 Proof. exact CP_laws. Qed.
